@@ -96,6 +96,20 @@ def check_merge(tracks, merged):
         got = [(m.time, ident_of(m)) for m in res]
         if got != merged:
             return 'wrong-result', '%s gave %r expected %r' % (how, got, merged)
+    # the same message OBJECT may occur several times (track * 2, one object appended
+    # repeatedly): merging must treat the occurrences like equal but distinct messages
+    if any(real):
+        shared = [mido.MidiTrack(list(t) * 2) for t in real]
+        distinct = [mido.MidiTrack(m.copy() for m in t) for t in shared]
+        for sk in (False, True):
+            try:
+                a = [(m.time, ident_of(m)) for m in mido.merge_tracks(shared, skip_checks=sk)]
+                b = [(m.time, ident_of(m)) for m in mido.merge_tracks(distinct, skip_checks=sk)]
+            except Exception as e:
+                return 'raises/' + type(e).__name__, repr(e)
+            if a != b:
+                return ('repeated-objects', 'tracks with repeated message objects (skip_checks=%s) merge to %r, '
+                        'with distinct copies to %r' % (sk, a, b))
     # the caller owns the results: modifying them must not influence anything else
     for how, res in outs:
         for m in res:
